@@ -152,12 +152,20 @@ def _p(x):
 class Con(object):
     """poly <= 0 (strict=False) or poly < 0 (strict=True).  Non-linear
     monomials are treated as independent opaque variables (sound)."""
-    __slots__ = ("p", "strict", "why")
+    __slots__ = ("p", "strict", "why", "_rows")
 
     def __init__(self, p, strict=False, why=""):
         self.p = _p(p)
         self.strict = strict
         self.why = why
+        self._rows = {}
+
+    def row(self, integer=True):
+        r = self._rows.get(integer)
+        if r is None:
+            r = _int_row(self, integer)
+            self._rows[integer] = r
+        return r
 
     def __repr__(self):
         return "%r %s 0" % (self.p, "<" if self.strict else "<=")
@@ -183,24 +191,94 @@ def _tighten(con, integer):
     return con
 
 
-def feasible(cons, integer=True, limit=4000):
-    """Fourier-Motzkin: is the conjunction satisfiable over Q (after integer
-    tightening of strict inequalities)?  Returns False only if definitely
-    infeasible.  ``limit`` bounds the constraint blow-up; on overflow the
-    answer is the conservative True."""
-    rows = []
+from math import gcd as _gcd
+
+_feas_cache = {}
+
+
+def _int_row(con, integer):
+    """Con -> (tuple of (monomial, int coef) sorted, strict) scaled to
+    coprime integers; integer tightening applied."""
+    t = con.p.t
+    den = 1
+    for c in t.values():
+        d = c.denominator
+        den = den * d // _gcd(den, d)
+    row = {}
+    for m, c in t.items():
+        v = int(c * den)
+        if v:
+            row[m] = v
+    strict = con.strict
+    if strict and integer:
+        row[()] = row.get((), 0) + 1
+        if row[()] == 0:
+            del row[()]
+        strict = False
+    return _norm_row(row, strict, integer)
+
+
+def _norm_row(row, strict, integer):
+    g = 0
+    for m, v in row.items():
+        if m != ():
+            g = _gcd(g, abs(v))
+    if g > 1:
+        c0 = row.get((), 0)
+        if integer and not strict:
+            # sum(g*a_i x_i) + c0 <= 0  <=>  sum(a_i x_i) <= floor(-c0/g)
+            row = {m: v // g for m, v in row.items() if m != ()}
+            k = -((-c0) // g)      # ceil(c0 / g)
+            if k:
+                row[()] = k
+        elif c0 % g == 0:
+            row = {m: v // g for m, v in row.items()}
+    return (tuple(sorted(row.items())), strict)
+
+
+def feasible(cons, integer=True, limit=3000):
+    """Fourier-Motzkin over integer-scaled rows: is the conjunction
+    satisfiable over Q (after integer tightening)?  Returns False only if
+    definitely infeasible; on blow-up the conservative True."""
+    rows = set()
     for c in cons:
-        c = _tighten(c, integer)
-        rows.append((dict(c.p.t), c.strict))
+        r = c.row(integer)
+        if not r[0]:
+            if r[1]:
+                return False        # 0 < 0
+            continue
+        if len(r[0]) == 1 and r[0][0][0] == ():
+            c0 = r[0][0][1]
+            if c0 > 0 or (c0 == 0 and r[1]):
+                return False
+            continue
+        rows.add(r)
+    key = (frozenset(rows), integer)
+    hit = _feas_cache.get(key)
+    if hit is not None:
+        return hit
+    res = _fm(rows, integer, limit)
+    if len(_feas_cache) > 200000:
+        _feas_cache.clear()
+    _feas_cache[key] = res
+    return res
+
+
+def _fm(rows, integer, limit):
+    rows = [(dict(r), s) for r, s in rows]
     variables = set()
     for r, _ in rows:
         variables.update(m for m in r if m != ())
-    # eliminate variables one by one, cheapest first
     while variables:
         best, bestcost = None, None
         for v in variables:
-            pos = sum(1 for r, _ in rows if r.get(v, 0) > 0)
-            neg = sum(1 for r, _ in rows if r.get(v, 0) < 0)
+            pos = neg = 0
+            for r, _ in rows:
+                c = r.get(v, 0)
+                if c > 0:
+                    pos += 1
+                elif c < 0:
+                    neg += 1
             cost = pos * neg - pos - neg
             if bestcost is None or cost < bestcost:
                 best, bestcost = v, cost
@@ -208,20 +286,25 @@ def feasible(cons, integer=True, limit=4000):
         variables.discard(v)
         pos = [(r, s) for r, s in rows if r.get(v, 0) > 0]
         neg = [(r, s) for r, s in rows if r.get(v, 0) < 0]
-        rest = [(r, s) for r, s in rows if r.get(v, 0) == 0]
-        new = rest
+        new = set()
+        out = []
+        for r, s in rows:
+            if r.get(v, 0) == 0:
+                k = (tuple(sorted(r.items())), s)
+                if k not in new:
+                    new.add(k)
         for rp, sp in pos:
+            a = rp[v]
             for rn, sn in neg:
-                a = rp[v]
                 b = -rn[v]
                 row = {}
                 for m, c in rp.items():
                     if m != v:
-                        row[m] = row.get(m, 0) + c * b
+                        row[m] = c * b
                 for m, c in rn.items():
                     if m != v:
                         row[m] = row.get(m, 0) + c * a
-                row = {m: c for m, c in row.items() if c != 0}
+                row = {m: c for m, c in row.items() if c}
                 strict = sp or sn
                 if not any(m != () for m in row):
                     c0 = row.get((), 0)
@@ -229,27 +312,14 @@ def feasible(cons, integer=True, limit=4000):
                         return False
                     continue
                 if strict and integer:
-                    # normalise to integer coefficients, then tighten
-                    from math import gcd
-                    den = 1
-                    for c in row.values():
-                        den = den * c.denominator // gcd(den, c.denominator)
-                    row = {m: c * den for m, c in row.items()}
                     row[()] = row.get((), 0) + 1
-                    strict = False
                     if row[()] == 0:
                         del row[()]
-                new.append((row, strict))
-        # de-duplicate
-        seen = set()
-        rows = []
-        for r, s in new:
-            k = (tuple(sorted(r.items())), s)
-            if k not in seen:
-                seen.add(k)
-                rows.append((r, s))
-        if len(rows) > limit:
+                    strict = False
+                new.add(_norm_row(row, strict, integer))
+        if len(new) > limit:
             return True
+        rows = [(dict(r), s) for r, s in new]
     for r, s in rows:
         c0 = r.get((), 0)
         if c0 > 0 or (c0 == 0 and s):
@@ -260,7 +330,12 @@ def feasible(cons, integer=True, limit=4000):
 def entails(premises, goal, integer=True):
     """premises |- goal  (goal: a Con, or a list of Cons = conjunction)."""
     goals = goal if isinstance(goal, (list, tuple)) else [goal]
+    have = None
     for g in goals:
+        if have is None:
+            have = set(c.row(integer) for c in premises)
+        if g.row(integer) in have:
+            continue
         # negation of  p <= 0  is  -p < 0 ; of  p < 0  is  -p <= 0
         neg = Con(-g.p, not g.strict)
         if feasible(list(premises) + [neg], integer):
